@@ -744,6 +744,15 @@ pub fn visit_all<Vz: Visitor>(v: &mut Vz) {
         let e = slice_rforms!(e, S, R, u8);
         v.visit(e.ordered().cloneable().serde().debug().flags("vector plain"));
     }
+    {
+        // a plain vector as the element region of a slice region (its own ReserveItems / merge code)
+        type S = Slice<VecRegion<u8>, Vec<usize>>;
+        type R = <S as Spec>::R;
+        let e = Entry::<S>::new(bytes_all()).large(bytes_large());
+        let e = slice_forms!(e, S, R, u8);
+        let e = slice_rforms!(e, S, R, u8);
+        v.visit(e.cloneable().serde().debug().flags("vector plain"));
+    }
     macro_rules! slice_mirror_usize {
         ($O:ty) => {{
             // the inner indices are the values themselves: arbitrary usize sequences reach the
